@@ -65,6 +65,9 @@ C03Clause(I, cf, ev) ==
   IN IF ~Aligned(ev.path, ev.idx, complete) THEN "not-aligned"
      ELSE IF ev.states # (IF ev.unique THEN UniqueStates(sts) ELSE sts) THEN "states-differ-from-best-path"
      ELSE IF Len(ev.path) = 0 /\ ev.idx # 0 THEN "empty-result-index"
+     ELSE IF Len(ev.path) = 0 /\ ev.states # << >> THEN "states-without-best-path"
+     ELSE IF Len(ev.path) = 0 /\ Len(ev.lat) > 0 /\ Len(Live(LayerOf(ev.lat, 0, 0))) > 0
+          THEN "empty-result-although-the-first-observation-has-a-live-candidate"
      ELSE IF Len(ev.path) > 0 /\ ev.idx # ev.path[Len(ev.path)].obs THEN "index-not-last-emitting"
      ELSE IF Len(ev.path) > 0 /\ complete /\ ev.early # -1 THEN "complete-but-early-stop"
      ELSE IF cf.tables /\ Fresh(ev) /\ ~cf.ne /\ cf.W = NoW /\ FirstOrder(cf) /\ ((Len(ev.path) = 0) # (Reach(I, cf, 0) = {}))
